@@ -359,7 +359,9 @@ func Run(args []string) int {
 			case len(t) == 2 && t[0] == "case":
 				id, cur = t[1], nil
 			case len(t) == 1 && t[0] == "end":
-				if isSvc(cur) {
+				if isAgg(cur) {
+					emit(out, id, execAggCase(svcTM(), cur))
+				} else if isSvc(cur) {
 					emit(out, id, watchdog(out, id, cur))
 				} else {
 					emit(out, id, execCase(cur))
@@ -383,6 +385,17 @@ func Run(args []string) int {
 	for i := 0; i < nsvc; i++ {
 		ops := genSvcCase(r.Fork(), 6+r.Intn(40))
 		emit(out, fmt.Sprintf("s%d", i), watchdog(out, fmt.Sprintf("s%d", i), ops))
+	}
+	// aggregate handler (wall-clock ticker, short interval): few cases, each waits for real ticks
+	nagg := 8
+	if f.Tier == "thorough" {
+		nagg = 40
+	}
+	if f.N < 50 {
+		nagg = 2
+	}
+	for i := 0; i < nagg; i++ {
+		emit(out, fmt.Sprintf("a%d", i), execAggCase(svcTM(), genAggCase(r.Fork())))
 	}
 	if f.Tier == "thorough" {
 		n := 0
